@@ -13,9 +13,9 @@ package core
 // one explicit Rem; both state implementations.
 
 type vhNode struct {
-	id     string
-	target string // "" = no deleteWith
-	hasT   bool
+	id      string
+	target  string // "" = no deleteWith
+	hasT    bool
 	target2 string // a second deleteWith entry (kind 4)
 	hasT2   bool
 }
